@@ -32,7 +32,7 @@ func init() {
 			"Oracle: handler does not panic or fail; total locked and every pool's sent/withdrawn unchanged; module balance == pools and pool bounds; split applied completely (4 new pools with the constants' amounts, validators pool reduced by their sum and renamed) or not at all; shifted accounts keep amounts and move start/end by exactly one calendar year; " +
 			"migrated minter/distributor params validate and equal the legacy ones field for field; no pool or trace disappears. Non-trivial: hard-coded owner present with >=2 pools and >=20 other owners. Distinct by state hash.",
 		Cases:         func(t string) int { return tierN(t, 480, 8000) },
-		MinNontrivial: func(t string) int { return tierN(t, 12, 600) },
+		MinNontrivial: func(t string) int { return tierN(t, 60, 600) },
 		Run:           runC16,
 	})
 }
@@ -268,6 +268,7 @@ func runC16(c *fw.Case) {
 			totalLocked.Add(totalLocked, p.GetCurrentlyLocked().BigInt())
 		}
 	}
+	c.Describe(totalLocked.String(), len(prePools)) // distinct by staged state, not only by its shape
 	// ---- run the registered upgrade handler ----
 	if p := safeCall("ApplyUpgrade", func() { app.UpgradeKeeper.ApplyUpgrade(ctx, upgradetypes.Plan{Name: v120.UpgradeName, Height: 100}) }); p != nil {
 		c.ViolateD("C16/upgrade-panic/"+panicKey(p.Stack), map[string]string{"panic": short(p.Value, 500), "stack": short(p.Stack, 3000)}, "the v1.2.0 upgrade handler panicked / failed: %s", short(p.Value, 300))
